@@ -101,6 +101,7 @@ func checkC17(w *World, r *Report) {
 		wrappers[m] = fn
 		checkForwarder(w, r, tm, fs, fn, m, "HK-WRAP", "Keeper", false)
 	}
+	checkHookShared(w, r, hookSlotOf(w))
 
 	// ---------------------------------------------------------------- HK-SITE
 	for _, m := range hookNames {
@@ -184,11 +185,21 @@ func checkC17(w *World, r *Report) {
 type forwardRule struct {
 	BaseRule
 	invoke ssa.CallInstruction
+	slot   *hookSlot
 }
 
+// "a listener is registered": the slot, and every pointer on the way to it, is non-nil.
 func (f *forwardRule) ValueOf(x *Explorer, fr *Frame, v ssa.Value) AV {
-	if namedOf(v.Type()) == x.W.Hooks {
-		if t := x.TM.Of(fr, v); isField(t, "hooks") {
+	if f.slot == nil {
+		return Unknown
+	}
+	_, isPtr := v.Type().Underlying().(*types.Pointer)
+	if namedOf(v.Type()) != x.W.Hooks && !isPtr {
+		return Unknown
+	}
+	t := x.TM.Of(fr, v)
+	for n := 1; n <= len(f.slot.path); n++ {
+		if f.slot.matches(t, n) {
 			return NonNil
 		}
 	}
@@ -424,10 +435,12 @@ func checkForwarder(w *World, r *Report, tm *Terms, fs *failSummary, fn *ssa.Fun
 				"the loop bound/step is not the plain range over the receiver")
 		}
 	} else {
-		r.Check(isField(rt, "hooks") && rt.Args[0].Op == "param", rule, key+":receiver", w.instrPos(inv),
-			"the listener invoked is the keeper's registered hooks field", "receiver of the invocation is "+rt.String())
+		slot := hookSlotOf(w)
+		rt = tm.OperandAt(fr, inv, cc.Value)
+		r.Check(slot != nil && slot.matches(rt, len(slot.path)), rule, key+":receiver", w.instrPos(inv),
+			"the listener invoked is the one the keeper's registration method stores", "receiver of the invocation is "+rt.String())
 		// on every success path with a listener registered the invoke is passed exactly once
-		x := NewExplorer(w, tm, &forwardRule{invoke: inv})
+		x := NewExplorer(w, tm, &forwardRule{invoke: inv, slot: slot})
 		var bad []string
 		for _, o := range x.Run(fn, 0) {
 			if o.Kind != ExitReturn {
@@ -862,11 +875,10 @@ func specialHookArg(w *World, tm *Terms, fn *ssa.Function, fr *Frame, m string, 
 	case "BeforeAllowedBiddersAdded":
 		// the slice whose elements are written
 		for _, wv := range written {
-			for wv.Op == "upd" { // the element with its auction id normalised
-				wv = wv.Args[0]
-			}
+			// exactly the elements announced: an entry that is normalised (auction id, address spelling) after the hook
+			// was told about it is stored as something the listeners never saw
 			if !(wv.Op == "elem" && wv.Args[0].Key() == at.Key()) {
-				return false, "the slice passed to the hook (" + at.String() + ") is not the slice whose elements are written (" + wv.String() + ")"
+				return false, "the slice passed to the hook (" + at.String() + ") is not the slice whose elements are written unchanged (" + wv.String() + ")"
 			}
 		}
 		return len(written) > 0, "no AllowedBidder write"
